@@ -15,7 +15,7 @@ def member(m, cap, x, fault, **kw):
 
 def cases(tier):
     out = []
-    cfgs = [(8, 1, 1, 2), (4, 2, 2, 3), (2, 4, 4, 2)] if tier == 'quick' else [(8, 1, 1, 2), (4, 2, 2, 3), (2, 4, 4, 2), (64, 1, 1, 1), (16, 2, 4, 6), (8, 8, 8, 2)]
+    cfgs = [(8, 1, 1, 2), (4, 2, 2, 3), (2, 4, 4, 2), (2, 8, 8, 6)] if tier == 'quick' else [(8, 1, 1, 2), (4, 2, 2, 3), (2, 4, 4, 2), (64, 1, 1, 1), (16, 2, 4, 6), (8, 8, 8, 2)]
     for (n, m, cap, x) in cfgs:
         for fi, fault in enumerate(FAULTS):
             if tier == 'quick' and (fi + n) % 2 and fault != 'const':
